@@ -93,7 +93,7 @@ class RawStream(FM.FormulaStream):
 
 
 def streams():
-    return [StrStream(), HoStream(), RawStream()]
+    return [StrStream(), HoStream(), RawStream(), FM.FloatBoundaryStream()]
 
 
 ASSUMPTIONS = [
